@@ -83,6 +83,7 @@ def check_removal(case, exclude=True):
     if spec2.get('ext'):
         for e in spec2['ext']:
             e['succ'] = [x for x in e['succ'] if x not in gone]
+            e['pred'] = [x for x in e.get('pred', []) if x not in gone]
         spec2['ext'] = [e for e in spec2['ext'] if e['succ']]
     case2 = dict(case, spec=spec2)
     o2 = sched.run(case2)
